@@ -6,7 +6,12 @@ Mode B: TLC-generated behaviours (one path per distinct small state + seeded sim
 replayed into a real RaftDiskStorage on /dev/shm, one abstract entry = one block of concrete entries so that
 FileCap = 3 slots = one real file of 30000 entries; after every action FirstIndex, LastIndex, Term, Entries
 (boundary arguments, size limits, full scan), Snapshot and InitialState are compared with the specification's
-expectation (etcd's MemoryStorage is fed the same operations as a cross-check of the specification)."""
+expectation (etcd's MemoryStorage is fed the same operations as a cross-check of the specification).
+Size-rotation family (RaftStorage.size.*.cfg, MaxBig > 0): entries of payload class Big weigh one unit, a file
+also rolls when it holds SizeCap units, so rotation happens in the middle of appending and conflicting batches
+and files are shorter than FileCap; replayed with REAL payloads of 31 MiB/(SizeCap+1) + 256 KiB so that the real
+store rolls by its 32 MiB limit exactly where the specification does; the real file layout (slot tables on
+/dev/shm) is compared with the specification's and real rotations by size are counted: none observed = exit 2."""
 import concurrent.futures as cf
 import json, os, random, time
 import vlib
@@ -14,33 +19,127 @@ import vlib
 PROP = "C17"
 DEVIATIONS = ["slot_search_off_by_one", "trunc_keeps_conflict_slot", "trunc_keeps_later_files",
               "delete_before_drops_holder", "impl_term_classification", "impl_trunc_clobbers_payload"]
+# deviations of the size-rotation family: they need Big payloads (checked against RaftStorage.size.exh.quick.cfg)
+SIZE_DEVIATIONS = ["conflict_zero_only_uncovered_tail", "trunc_zero_only_uncovered_tail", "scan_stops_at_short_file",
+                   "size_roll_drops_entry"]
+# ... and of payloads larger than a file (class Huge; checked against RaftStorage.size.huge.cfg): the behaviour of the
+# unchanged code (selftest/fixes/c17-oversize-entry-empty-file.diff)
+HUGE_DEVIATIONS = ["oversize_rolls_empty_file"]
+
+
+def size_classes(h):
+    """Model-side classification of a behaviour: rotations by size (a file that is not the current one has fewer
+    than FileCap slots), those caused by a conflicting Save, those in the middle of a batch, and those of a conflicting
+    Save whose roll point lies inside the batch and not beyond the old end of the log (superseded entries lay behind
+    the roll point: what a conflict handling that clears too little leaves behind)."""
+    c = dict(size=0, conflict=0, mid=0, stale=0, huge_at_file_start=0)
+    prev_last, prev_files, seen = 0, [], set()
+    for st in h:
+        fs, cap = st["exp"]["files"], st["exp"]["cap"]["slots"]
+        a = st["args"]
+        if st["a"] == "Save" and a["n"] > 0 and a["bm"] & 1 and a.get("bc") == 4 and len(prev_files) >= 2:
+            # a Huge payload conflicts at the first slot of a file while rolled files exist (the file is emptied first)
+            c["huge_at_file_start"] += any(f["fi"] == a["s0"] for f in prev_files[1:])
+        for j in range(len(fs) - 1):
+            key = (fs[j]["fi"], fs[j]["n"], fs[j + 1]["fi"])
+            if fs[j]["n"] >= cap or key in seen:
+                continue
+            seen.add(key)
+            c["size"] += 1
+            if st["a"] == "Save" and st["args"]["n"] > 0:
+                lo, nx = st["args"]["s0"], fs[j + 1]["fi"]
+                if lo <= nx <= lo + st["args"]["n"] - 1:
+                    c["mid"] += nx > lo
+                    if lo <= prev_last:
+                        c["conflict"] += 1
+                        c["stale"] += lo < nx <= prev_last
+        prev_last, prev_files = st["exp"]["last"], fs
+    return c
+
+
+def pick(traces, k, rnd):
+    """seeded sample of k behaviours of the size family, the rarer classes first"""
+    if len(traces) <= k:
+        return list(traces)
+    cls = [size_classes(h) for h in traces]
+    order = list(range(len(traces)))
+    rnd.shuffle(order)
+    out, used = [], set()
+    for key, share in (("huge_at_file_start", 0.3), ("stale", 0.45), ("conflict", 0.2), ("mid", 0.2)):
+        for i in [i for i in order if i not in used and cls[i][key]][:int(k * share)]:
+            used.add(i)
+            out.append(traces[i])
+    for i in order:
+        if len(out) >= k:
+            break
+        if i not in used:
+            used.add(i)
+            out.append(traces[i])
+    return out
 
 
 def gen_behaviours(tier, seed):
+    """Starts every TLC run; returns the behaviours of the slot-count family as soon as its export / simulation runs are
+    finished, a function that waits for those of the size-rotation family (they are replayed second) and a function that
+    waits for the exhaustive runs (Mode A) and completes the statistics: the exhaustive runs go on while the behaviours
+    are replayed."""
     stats = {}
     # several TLC JVMs run side by side: cap each heap (default would be a quarter of the RAM each)
     os.environ.setdefault("JAVA_TOOL_OPTIONS", "-Xmx4g")
     quick = tier == "quick"
     exh_cfg = "RaftStorage.exh.quick.cfg" if quick else "RaftStorage.exh.thorough.cfg"
     nsim_procs, nsim = (2, 20) if quick else (6, 120)
-    with cf.ThreadPoolExecutor(2 + nsim_procs) as ex:
-        f_exh = ex.submit(vlib.run_tlc, "RaftStorageMC", exh_cfg, workers=max(2, vlib.NCPU - 2 - nsim_procs),
+    # size-rotation family: exhaustive cfgs, systematic exports (only behaviours with a rotation by size), simulation
+    sz_exh = ["RaftStorage.size.exh.quick.cfg"] if quick else ["RaftStorage.size.exh.thorough.cfg", "RaftStorage.size.exh.thorough1.cfg"]
+    # (cfg, number of behaviours replayed (0 = all), TLC workers)
+    sz_bfs = [("RaftStorage.size.bfs.cap1.cfg", 50, 2), ("RaftStorage.size.bfs.cap2.cfg", 30, 2),
+              ("RaftStorage.size.bfs.unit.cfg", 40, 3)] if quick else \
+             [("RaftStorage.size.bfs.cap1.cfg", 0, 2), ("RaftStorage.size.bfs.cap2.cfg", 0, 2),
+              ("RaftStorage.size.bfs.cap2t.cfg", 0, 2), ("RaftStorage.size.bfs.cap1t.cfg", 600, 3),
+              ("RaftStorage.size.bfs.unit.cfg", 800, 2)]
+    if os.environ.get("VERIF_C17_HUGE", "1") == "1":
+        # payloads larger than the payload area of a file (class Huge): the code used to rotate an empty file into the
+        # file list there (F-C17-3, repaired by 07237d0 in /repo)
+        sz_bfs.append(("RaftStorage.size.huge.cfg", 60 if quick else 600, 2))
+    sz_sim_procs, sz_nsim, sz_sim_keep = (2, 25, 30) if quick else (4, 100, 200)
+    # the simulation and export runs are short-lived (one or two threads for a few minutes); the exhaustive runs get
+    # half of the cores (slot-count family) and a quarter per size cfg, and go on while the behaviours are replayed
+    w_exh = max(2, vlib.NCPU // 2)
+    w_szexh = max(2, vlib.NCPU // (4 * len(sz_exh)))
+    ex = cf.ThreadPoolExecutor(6 + len(sz_exh) + len(sz_bfs) + nsim_procs + sz_sim_procs)
+    if True:
+        f_exh = ex.submit(vlib.run_tlc, "RaftStorageMC", exh_cfg, workers=w_exh,
                           timeout=600 if quick else 1700, coverage=False)
+        f_szexh = [ex.submit(vlib.run_tlc, "RaftStorageMC", c, workers=w_szexh, timeout=600 if quick else 1700) for c in sz_exh]
         f_bfs = ex.submit(vlib.run_tlc, "RaftStorageMC", "RaftStorage.bfs.export.cfg", workers=2, timeout=600)
+        f_szbfs = [ex.submit(vlib.run_tlc, "RaftStorageMC", c, workers=w, timeout=900 if quick else 1700) for c, _, w in sz_bfs]
         f_sims = [ex.submit(vlib.run_tlc, "RaftStorageMC", "RaftStorage.sim.cfg", simulate=nsim, depth=12,
                             seed=seed * 1000 + k, timeout=600 if quick else 1700) for k in range(nsim_procs)]
-        r = f_exh.result()
+        f_szsims = [ex.submit(vlib.run_tlc, "RaftStorageMC", "RaftStorage.size.sim.cfg", simulate=sz_nsim, depth=10,
+                              seed=seed * 1000 + 500 + k, timeout=600 if quick else 1700) for k in range(sz_sim_procs)]
         r2 = f_bfs.result()
         r3s = [f.result() for f in f_sims]
-    vlib.tlc_must_pass(r, exh_cfg)
-    stats["exh"] = {k: r[k] for k in ("generated", "distinct", "depth", "wall_s")}
-    stats["exh"]["cfg"] = exh_cfg
+
+    def mode_a():
+        try:
+            r = f_exh.result()
+            rz_exh = [f.result() for f in f_szexh]
+        finally:
+            ex.shutdown(wait=True)
+        vlib.tlc_must_pass(r, exh_cfg)
+        stats["exh"] = {k: r[k] for k in ("generated", "distinct", "depth", "wall_s")}
+        stats["exh"]["cfg"] = exh_cfg
+        stats["size_exh"] = []
+        for c, rz in zip(sz_exh, rz_exh):
+            vlib.tlc_must_pass(rz, c)
+            stats["size_exh"].append(dict({k: rz[k] for k in ("generated", "distinct", "depth", "wall_s")}, cfg=c))
+
     vlib.tlc_must_pass(r2, "RaftStorage.bfs.export.cfg")
     systematic = r2["traces"]
     stats["bfs_export"] = {"generated": r2["generated"], "distinct": r2["distinct"], "traces": len(systematic)}
     if quick:  # seeded sample of the systematic set (the thorough tier replays all of it)
         rnd = random.Random(seed)
-        systematic = rnd.sample(systematic, min(len(systematic), 350))
+        systematic = rnd.sample(systematic, min(len(systematic), 300))
         stats["bfs_export"]["sampled"] = len(systematic)
     behaviours = list(systematic)
     nsimtr = 0
@@ -49,16 +148,51 @@ def gen_behaviours(tier, seed):
         behaviours += r3["traces"]
         nsimtr += len(r3["traces"])
     stats["sim"] = {"generated": sum(x["generated"] for x in r3s), "traces": nsimtr, "num": nsim * nsim_procs}
-    return behaviours, stats
+
+    def size_family():
+        rz_bfs = [f.result() for f in f_szbfs]
+        rz_sims = [f.result() for f in f_szsims]
+        rnd = random.Random(seed * 7 + 3)
+        stats["size_bfs_export"] = []
+        size_behaviours = []
+        for (c, k, _), rz in zip(sz_bfs, rz_bfs):
+            vlib.tlc_must_pass(rz, c)
+            chosen = pick(rz["traces"], k, rnd) if k else list(rz["traces"])
+            stats["size_bfs_export"].append({"cfg": c, "generated": rz["generated"], "distinct": rz["distinct"],
+                                             "traces_with_size_rotation": len(rz["traces"]), "replayed": len(chosen)})
+            size_behaviours += chosen
+        simtr = []
+        for rz in rz_sims:
+            vlib.tlc_must_pass(rz, "RaftStorage.size.sim.cfg")
+            simtr += rz["traces"]
+        # the Export invariant prints every successor of the last step: one behaviour per distinct prefix
+        byprefix = {}
+        for h in simtr:
+            byprefix.setdefault(json.dumps([[s["a"], s["args"]] for s in h[:-1]], sort_keys=True), []).append(h)
+        simone = [rnd.choice(byprefix[k]) for k in sorted(byprefix)]
+        chosen = pick(simone, sz_sim_keep, rnd)
+        stats["size_sim"] = {"generated": sum(x["generated"] for x in rz_sims), "traces_with_size_rotation": len(simtr),
+                             "replayed": len(chosen), "num": sz_nsim * sz_sim_procs}
+        size_behaviours += chosen
+        stats["size_family_behaviours"] = len(size_behaviours)
+        return size_behaviours
+
+    return behaviours, size_family, stats, mode_a
 
 
 def replay_cases(cases, seed):
+    """A harness process that dies or hangs (watchdog) is an infrastructure failure - unless other behaviours already
+    show a divergence of the real store (a store that went wrong may also make later reads arbitrarily slow)."""
     vh = vlib.build_vh()
     results, errs = vlib.run_vh_parallel(vh, ["replay-raftlog"], cases)
-    if errs:
-        raise vlib.Infra(f"harness process failed: {errs[0]}")
-    if len(results) != len(cases):
+    diverged = any(not r["ok"] and not r.get("infra") for r in results)
+    if errs and not diverged:
+        raise vlib.Infra(f"harness process failed: {str(errs[0])[:3000]}")
+    if len(results) != len(cases) and not diverged:
         raise vlib.Infra(f"harness returned {len(results)} results for {len(cases)} cases")
+    if errs:
+        vlib.log(f"[C17] note: {len(errs)} harness process(es) died or hung; {len(cases) - len(results)} behaviours have no result: "
+                 + str(errs[0])[:300].replace("\n", " | "))
     return results
 
 
@@ -85,9 +219,24 @@ def judge(results):
 
 def run(tier, seed):
     t0 = time.time()
-    behaviours, stats = gen_behaviours(tier, seed)
+    behaviours, size_family, stats, mode_a = gen_behaviours(tier, seed)
     cases = [{"id": i, "seed": seed, "hist": h} for i, h in enumerate(behaviours)]
-    results = replay_cases(cases, seed)
+    phases = {"slot_count_family_exported": round(time.time() - t0)}
+    vlib.log(f"[C17] {len(cases)} behaviours of the slot-count family exported after {time.time() - t0:.0f}s")
+    try:
+        results = replay_cases(cases, seed)
+        phases["slot_count_family_replayed"] = round(time.time() - t0)
+        size_behaviours = size_family()
+        cases2 = [{"id": len(cases) + i, "seed": seed, "hist": h} for i, h in enumerate(size_behaviours)]
+        vlib.log(f"[C17] slot-count family replayed after {time.time() - t0:.0f}s; {len(cases2)} behaviours of the size-rotation family")
+        results += replay_cases(cases2, seed)
+        phases["size_family_replayed"] = round(time.time() - t0)
+        vlib.log(f"[C17] replayed after {time.time() - t0:.0f}s")
+        behaviours, cases = behaviours + size_behaviours, cases + cases2
+    finally:
+        mode_a()  # Mode A must pass (else exit 2) before any verdict is reported
+    phases["mode_a_done"] = round(time.time() - t0)
+    stats["phases_s"] = phases
     bad, known = judge(results)
     for kid in sorted(known):
         ex = next((r for r in known[kid] if r["ok"]), known[kid][0])
@@ -99,15 +248,40 @@ def run(tier, seed):
         print(f"VIOLATION property={PROP} replay={path}")
         vlib.log(r.get("detail", ""))
     distinct = len({json.dumps([[s["a"], s["args"]] for s in h], sort_keys=True) for h in behaviours})
+    # size-rotation family: what the specification predicts and what was OBSERVED in the real store's files
+    szb = [h for h in behaviours if h and h[0]["exp"]["cap"]["big"] > 0]
+    szc = [size_classes(h) for h in szb]
+    szr = [r for r in results if r.get("size_mode")]
+    size_cov = {
+        "behaviours": len(szb),
+        "spec_behaviours_with_size_rotation": sum(1 for c in szc if c["size"]),
+        "spec_behaviours_conflicting_batch_rolls_by_size": sum(1 for c in szc if c["conflict"]),
+        "spec_behaviours_roll_in_mid_batch": sum(1 for c in szc if c["mid"]),
+        "spec_behaviours_conflicting_batch_rolls_before_old_tail_ends": sum(1 for c in szc if c["stale"]),
+        "real_big_payloads_written": sum(r.get("big_written", 0) for r in szr),
+        "real_size_rotations": sum(r.get("size_rolls", 0) for r in szr),
+        "real_behaviours_with_size_rotation": sum(1 for r in szr if r.get("size_rolls")),
+        "real_size_rotations_by_conflicting_batch": sum(r.get("conflict_size_rolls", 0) for r in szr),
+        "real_size_rotations_in_mid_batch": sum(r.get("mid_batch_rolls", 0) for r in szr),
+        "real_size_rotations_by_conflicting_batch_before_old_tail_ends": sum(r.get("stale_tail_rolls", 0) for r in szr),
+        "real_layout_drift_steps": sum(r["drift"] for r in szr),
+        "behaviours_with_reopen_after_size_rotation": sum(
+            1 for h in szb if any(s["a"] == "Reopen" and any(f["n"] < s["exp"]["cap"]["slots"] for f in h[i - 1]["exp"]["files"][:-1])
+                                  for i, s in enumerate(h) if i > 0)),
+    }
     cov = {
-        "states": stats["exh"]["distinct"], "transitions": stats["exh"]["generated"],
+        "states": stats["exh"]["distinct"] + sum(x["distinct"] for x in stats["size_exh"]),
+        "transitions": stats["exh"]["generated"] + sum(x["generated"] for x in stats["size_exh"]),
         "traces_validated_against_impl": len(results),
         "samples": [[[s["a"], s["args"]] for s in h] for h in ([behaviours[0], behaviours[-1]] if behaviours else [])],
         "exhaustive": True,
         "evaluations": len(results), "distinct_nontrivial": distinct,
         "rule": "behaviours of RaftStorage.tla (one path per distinct state of the small export config, seeded sample in the "
-                "quick tier, + seeded simulation up to 10 abstract entries = 4 real files); distinct = distinct action sequences; "
-                "after every action all read operators are compared for boundary arguments, size limits and a full scan",
+                "quick tier, + seeded simulation up to 10 abstract entries = 4 real files; size-rotation family: the paths of the "
+                "systematic size configs in which a file is rolled by size - seeded sample favouring conflicting batches that roll "
+                "before the old tail ends - + seeded simulation); states/transitions = sum over the exhaustive cfgs (slot-count "
+                "and size family); distinct = distinct action sequences; after every action all read operators are compared for "
+                "boundary arguments, size limits and a full scan",
         "tlc": stats,
         "reads_compared": sum(r["reads"] for r in results),
         "steps_replayed": sum(len(h) for h in behaviours),
@@ -116,18 +290,35 @@ def run(tier, seed):
         "behaviours_with_reopen": sum(1 for h in behaviours if any(s["a"] == "Reopen" for s in h)),
         "behaviours_truncating_into_earlier_file": sum(1 for h in behaviours if any(s["exp"]["clob"] for s in h)),
         "known_finding_behaviours": {k: len(v) for k, v in known.items()},
+        "size_family": size_cov,
     }
     vlib.write_evidence(PROP, tier, seed, "model_checking", cov, time.time() - t0, len(bad), [
-        "TLC bounds as in the cfg files named under coverage.tlc; FileCap = 3 abstract slots stand for maxNumEntries = 30000",
-        "one abstract entry = a block of concrete entries with seeded block edges (10000/20000 +-1, 1/29999, 1/2, ...); payloads <= 48 bytes, "
-        "so rotation by the 32 MiB size limit is not exercised",
+        "TLC bounds as in the cfg files named under coverage.tlc; FileCap abstract slots stand for maxNumEntries = 30000, SizeCap units "
+        "for the 31 MiB payload area of a file (maxLogFileSize = 32 MiB)",
+        "slot-count family: one abstract entry = a block of concrete entries with seeded block edges (10000/20000 +-1, 1/29999, 1/2, ...), "
+        "payloads <= 48 bytes",
+        "size-rotation family: uniform blocks of 30000/FileCap concrete entries, a Big entry = a block whose first concrete entry carries a real "
+        "payload of 31 MiB/(SizeCap+1) + 256 KiB (+ seeded jitter < 4 KiB), i.e. 8.0 / 10.6 / 15.75 MiB for SizeCap 3 / 2 / 1; at most MaxBig <= 6 "
+        "big payloads per behaviour; a single payload larger than the payload area of a file (class Huge, 31 MiB + 64 KiB) in "
+        "RaftStorage.size.huge.cfg (FileCap = 30000: one concrete entry per abstract entry; the defect found there, F-C17-3, is repaired by "
+        "07237d0); the exact byte boundary of the size test (offset+4+len == 32 MiB) is not probed",
         "store driven in process through the exported API (Init/Save/CreateSnapshot/DeleteBefore/Close), scratch directory on /dev/shm; "
         "entry-file-rw-type 2 (default) in ~80% and 1 in ~20% of the cases",
         "domain: saves continue, overlap or conflict above the snapshot index without gaps; CreateSnapshot only for stored indexes newer than "
         "the current snapshot; installing a snapshot beyond the end of the log (MemoryStorage.ApplySnapshot) and crash points are not explored",
         "clean close/reopen only (no crash injection)",
     ])
-    return 1 if bad else 0
+    if bad:
+        return 1
+    # vacuity guard of the size-rotation family: the real store must really have rolled files by size, also in the
+    # middle of conflicting batches that supersede entries behind the roll point
+    for k in ("real_size_rotations", "real_size_rotations_in_mid_batch", "real_size_rotations_by_conflicting_batch",
+              "real_size_rotations_by_conflicting_batch_before_old_tail_ends"):
+        if not size_cov[k]:
+            raise vlib.Infra(f"size-rotation family is vacuous: {k} = 0 ({size_cov})")
+    if size_cov["real_layout_drift_steps"] or cov["layout_drift_steps"]:
+        vlib.log(f"[C17] note: real file layout differs from the specification's in {cov['layout_drift_steps']} steps (not a verdict)")
+    return 0
 
 
 def replay(path, seed):
@@ -149,9 +340,12 @@ def selftest(seed):
     base = open(os.path.join(vlib.SPECS, "cfg", "RaftStorage.exh.quick.cfg")).read()
     os.makedirs(vlib.WORK, exist_ok=True)
     rc = 0
-    for d in DEVIATIONS:
+    size_base = open(os.path.join(vlib.SPECS, "cfg", "RaftStorage.size.exh.quick.cfg")).read()
+    huge_base = open(os.path.join(vlib.SPECS, "cfg", "RaftStorage.size.huge.cfg")).read().replace(" ExportHuge", "")
+    for d in DEVIATIONS + SIZE_DEVIATIONS + HUGE_DEVIATIONS:
         p = os.path.join(vlib.WORK, f"c17-dev-{d}.cfg")
-        open(p, "w").write(base.replace("Dev = {}", 'Dev = {"%s"}' % d))
+        b = size_base if d in SIZE_DEVIATIONS else huge_base if d in HUGE_DEVIATIONS else base
+        open(p, "w").write(b.replace("Dev = {}", 'Dev = {"%s"}' % d))
         r = vlib.run_tlc("RaftStorageMC", p, timeout=600)
         print(f"deviation {d}: TLC reports {r['violated'] or 'NO VIOLATION'} ({r['distinct']} states, {r['wall_s']:.0f}s)")
         if not r["violated"]:
